@@ -544,6 +544,24 @@ func (u *Universe) familiesC() []Family {
 				if hon.HasTxs {
 					add(fmt.Sprintf("%d/GetTransactionsWithResults", h), cs2)
 				}
+				// The provider's claim about the latest height is untrusted: understating it must not
+				// switch off the binding of results to the verified header of the next height.
+				if ch.LBs[h+1] != nil {
+					var cs3 []Case
+					for _, cl := range []int64{h, h - 1, ch.Heights[0]} {
+						cl := cl
+						for _, m := range u.resultsFieldMutants(ch, h) {
+							m := m
+							cs3 = append(cs3, Case{Desc: fmt.Sprintf("provider claims latest=%d; %s", cl, m.Desc), Digest: digestOf(cbor.Marshal(m.Val.Height), m.Val.Meta, cbor.Marshal(cl)), Run: func(w *Worker) Result {
+								return w.runC(ch, func(p *fakeProvider) {
+									p.claimLatest = cl
+									p.oResults = func(int64) (*consensusAPI.BlockResults, error) { r := *m.Val; return &r, nil }
+								}, cGetBlockResults(ch, h), true)
+							}})
+						}
+					}
+					add(fmt.Sprintf("%d/GetBlockResults-understated-latest", h), cs3)
+				}
 			}
 			// --- GetValidators at a trusted height: served from the light block, the provider is not consulted.
 			if hon.Validators != nil {
